@@ -19,7 +19,7 @@ ASSUMPTIONS = ['ties at a pruning boundary (k-th vs (k+1)-th candidate within 1e
                'brute force over all alignments only for C^T <= 4096']
 N = {'quick': 3000, 'thorough': 200000}
 CLASSES = ['rand', 'peaky', 'onehot', 'zeros', 'allpruned', 'repeats', 'const', 'twolevel', 'unpruned_small', 'unnormalised', 'threshold']
-REQUIRED = ['decoders_with_insertion_bonus_and_no_lm', 'float32_large_alphabet_guard_checked', 'long_lived_decoder_reused', 'alphabets_with_white_space', 'threshold_symbols', 'bestfirst_selector_decodes', 'decodes', 'overcount_checked', 'beam_compared', 'unpruned_compared', 'frames_monitored', 'frames_pruned', 'joins_observed', 'guard_checked']
+REQUIRED = ['reused_buffers_checked', 'decoders_with_insertion_bonus_and_no_lm', 'float32_large_alphabet_guard_checked', 'long_lived_decoder_reused', 'alphabets_with_white_space', 'threshold_symbols', 'bestfirst_selector_decodes', 'decodes', 'overcount_checked', 'beam_compared', 'unpruned_compared', 'frames_monitored', 'frames_pruned', 'joins_observed', 'guard_checked']
 EXHAUSTIVE_KEY = 'exhaustive_matrices'
 EXHAUSTIVE_NOTE = 'all matrices with two-level rows (weights in {1,2}), C = 3, T <= 2 (quick) / T <= 3 (thorough), every k in {1,2,3,50}, both selectors'
 KS = [1, 2, 3, 5, 8, 50]
@@ -93,6 +93,12 @@ def make_matrix(rng, kind, T, C):
         # non-blank symbols sitting exactly on the pre-selection threshold (log-probability bit-equal to -10.0) or one ulp beside it
         lp = np.empty((T, C))
         for t in range(T):
+            if rng.random() < 0.3:
+                # a frame as a single-precision soft-max leaves it: the blank takes all but 4.4e-5, one symbol sits just above the threshold, the row sums to 1 + 3e-6
+                lp[t] = -30.0
+                lp[t, -1] = np.log1p(-4.4e-5)
+                lp[t, int(rng.integers(0, C - 1))] = float(rng.uniform(-9.99, -9.9))
+                continue
             on = rng.random(C) < 0.5
             on[-1] = False
             if on.sum() == C - 1 and rng.random() < 0.5:
@@ -249,10 +255,22 @@ def decode_and_check(lp, k, default_sel, mon, ctx, info, compare_beam=True):
     else:
         mon.count('long_lived_decoder_reused')
     rec_keep = list(ctx.rec)
+    buf = lp.copy()
     try:
-        hyps_old = [(h.transcript, float(h.vis_sc)) for h in old(lp.copy())]
+        hyps_old = [(h.transcript, float(h.vis_sc)) for h in old(buf)]
     except Exception as e:
         hyps_old = repr(e)[:300]
+    # ... and the caller re-uses that buffer for unnormalised scores: the same decoder must reject it now
+    if isinstance(hyps_old, list) and np.isfinite(buf).all():
+        buf += 0.4
+        mon.count('reused_buffers_checked')
+        try:
+            old(buf)
+            mon.violation('unnormalised-rejected', dict(info, note='the array decoded a moment ago was overwritten in place with unnormalised scores and decoded again by the same decoder', decoder='CTCPrefixLogRawNumpyDecoder'))
+        except ValueError:
+            pass
+        except Exception as e:
+            mon.violation('decode-raises', dict(info, exception=repr(e)[:300], step='re-used buffer'))
     ctx.rec[:] = rec_keep
     mon.count('long_lived_decoder_decodes')
     if hyps_old != hyps:
